@@ -55,7 +55,9 @@ namespace nmtools::utl
         constexpr static_vector()
         {}
         constexpr static_vector(size_type n)
-            : size_(n)
+            // same policy as resize(): a size beyond the capacity is refused (the vector stays empty)
+            // instead of creating an object with size() > Capacity
+            : size_(n <= Capacity ? n : 0)
         {}
 
         template <typename...Ts>
